@@ -22,8 +22,16 @@ implementation's output tokens. -/
 structure Verdict where
   model : List String
   oracleOk : Bool
+  /-- which part of the oracle rejected the implementation output (diagnostic only) -/
+  why : String := ""
 
 abbrev Handler := Cfg → String → Array Nat → List String → Option Verdict
+
+/-- A handler that carries driver state from line to line (operation histories). -/
+abbrev SHandler (σ : Type) := Cfg → String → Array Nat → List String → σ → Option (Verdict × σ)
+
+def Handler.lift {σ : Type} (h : Handler) : SHandler σ :=
+  fun cfg op a impl st => (h cfg op a impl).map (fun v => (v, st))
 
 def fmtR (r : R Nat) : List String :=
   match r with
@@ -83,28 +91,28 @@ structure Stats where
   hist : Std.HashMap String Nat := {}
   samples : Std.HashMap String Nat := {}
 
-partial def loop (handler : Handler) (h : IO.FS.Stream) (out : IO.FS.Stream)
-    (cfg : Cfg) (st : Stats) : IO Stats := do
+partial def loop {σ : Type} (handler : SHandler σ) (h : IO.FS.Stream) (out : IO.FS.Stream)
+    (cfg : Cfg) (st : Stats) (ds : σ) : IO Stats := do
   let raw ← h.getLine
   if raw.isEmpty then return st
   let line := raw.trimAscii.toString
-  if line.isEmpty then loop handler h out cfg st
+  if line.isEmpty then loop handler h out cfg st ds
   else if line.startsWith "#cfg ovf=" then
     let v := (line.drop 9) == "1"
-    loop handler h out { ovf := v } st
-  else if line.startsWith "#" then loop handler h out cfg st
+    loop handler h out { ovf := v } st ds
+  else if line.startsWith "#" then loop handler h out cfg st ds
   else
     let n := st.lines + 1
     match parseLine line with
     | none =>
       out.putStrLn s!"U {n} {line}"
-      loop handler h out cfg { st with lines := n, unknown := st.unknown + 1 }
+      loop handler h out cfg { st with lines := n, unknown := st.unknown + 1 } ds
     | some (op, args, impl) =>
-      match handler cfg op args impl with
+      match handler cfg op args impl ds with
       | none =>
         out.putStrLn s!"U {n} {line}"
-        loop handler h out cfg { st with lines := n, unknown := st.unknown + 1 }
-      | some v =>
+        loop handler h out cfg { st with lines := n, unknown := st.unknown + 1 } ds
+      | some (v, ds) =>
         let modelStr := " ".intercalate v.model
         let cls := op ++ ":" ++ ((v.model.find? (fun t => t.toNat?.isNone)).getD "num")
         let hist := st.hist.insert cls (st.hist.getD cls 0 + 1)
@@ -112,18 +120,18 @@ partial def loop (handler : Handler) (h : IO.FS.Stream) (out : IO.FS.Stream)
         if seen < 2 then out.putStrLn s!"E {line} :: {modelStr}"
         let samples := if seen < 2 then st.samples.insert cls (seen + 1) else st.samples
         let disagree := v.model != impl
-        if !v.oracleOk then out.putStrLn s!"F {n} {line} :: {modelStr}"
+        if !v.oracleOk then out.putStrLn s!"F {n} {line} :: {modelStr} :: {v.why}"
         else if disagree then out.putStrLn s!"D {n} {line} :: {modelStr}"
         loop handler h out cfg
           { st with lines := n,
                     dis := st.dis + (if disagree then 1 else 0),
                     fail := st.fail + (if v.oracleOk then 0 else 1),
-                    hist := hist, samples := samples }
+                    hist := hist, samples := samples } ds
 
-def run (handler : Handler) : IO UInt32 := do
+def run {σ : Type} (handler : SHandler σ) (init : σ) : IO UInt32 := do
   let stdin ← IO.getStdin
   let stdout ← IO.getStdout
-  let st ← loop handler stdin stdout { ovf := true } {}
+  let st ← loop handler stdin stdout { ovf := true } {} init
   for (k, v) in st.hist.toList do
     stdout.putStrLn s!"H {k} {v}"
   stdout.putStrLn s!"S lines={st.lines} dis={st.dis} fail={st.fail} unknown={st.unknown}"
